@@ -620,6 +620,13 @@ func call(method, path string, hc webdav.HTTPClient) (out string) {
 
 var watchdog = 5 * time.Second
 
+// hangs counts watchdog expiries; after maxHangs the run stops executing further cases
+// (the hanging cases already written are failing inputs, the search need not go on
+// waiting 5 s for each of thousands more).
+var hangs int32
+
+const maxHangs = 12
+
 func observe(c caseIn) string {
 	hc := &scripted{r: &c.r}
 	done := make(chan string, 1)
@@ -630,6 +637,7 @@ func observe(c caseIn) string {
 	case out = <-done:
 	case <-t.C:
 		out = "(hang)"
+		atomic.AddInt32(&hangs, 1)
 	}
 	t.Stop()
 	return hx.L("o", hx.I(int64(atomic.LoadInt32(&hc.calls))), out)
@@ -702,6 +710,9 @@ func main() {
 		go func() {
 			defer wg.Done()
 			for c := range inputs {
+				if atomic.LoadInt32(&hangs) >= maxHangs {
+					continue
+				}
 				sink.Put(exec(c))
 			}
 		}()
@@ -709,5 +720,8 @@ func main() {
 	generate(func(c caseIn) { inputs <- c })
 	close(inputs)
 	wg.Wait()
+	if atomic.LoadInt32(&hangs) >= maxHangs {
+		fmt.Fprintf(os.Stderr, "c14: stopped after %d hanging calls\n", hangs)
+	}
 	fmt.Fprintf(os.Stderr, "c14: %d cases\n", sink.N)
 }
